@@ -130,6 +130,8 @@ pub struct World {
     pub filter_false_positives: u32,
     /// per closing tx: (index of the output the harness built as ours, HTLC output indices it built)
     pub built: BTreeMap<u64, (u32, Vec<u32>)>,
+    /// spender id -> [(vout of the closing tx it spends, input index)] for the tracked non-ours outputs
+    pub htlc_spends: BTreeMap<u64, Vec<(u32, u32)>>,
     pub ctype: String,
 }
 
@@ -255,7 +257,7 @@ impl World {
             ids.insert(t.compute_txid(), *k);
         }
         let base_height = node.get_tracker().height();
-        World { node, channel_id, funding_outpoint, txs, ids, blocks: vec![], cb: 0, base_height, filter_false_positives: 0, built: BTreeMap::from([(U, (our, vec![h1.min(h2), h1.max(h2)])), (UC, (uc_our, vec![])), (UR, (ur_our, vec![ur_local]))]), ctype: ct.to_string() }
+        World { node, channel_id, funding_outpoint, txs, ids, blocks: vec![], cb: 0, base_height, filter_false_positives: 0, built: BTreeMap::from([(U, (our, vec![h1.min(h2), h1.max(h2)])), (UC, (uc_our, vec![])), (UR, (ur_our, vec![ur_local]))]), htlc_spends: BTreeMap::from([(T1, vec![(h1, 0)]), (T2, vec![(h2, 0)]), (T12, vec![(h1, 0), (h2, 1)]), (JR, vec![(ur_local, 0)])]), ctype: ct.to_string() }
     }
 
     /// tx tokens `T<id>:<inputs>:<nOut>:<kind>`; the kind of the two closing transactions comes from
@@ -528,4 +530,73 @@ pub fn tok_typed(ct: &str, id: u64) -> String {
 
 pub fn init_line() -> String {
     World::shared().init_line()
+}
+
+/// Reference view computed from the harness' own knowledge of the chain (which pool transaction is in which
+/// block and what each of them is), independent of the implementation and of the Lean model: the state part and
+/// the watch sets a monitor must show after connecting exactly `chain` (in order) on top of the base height.
+pub fn expected_view(w: &World, chain: &[Vec<u64>]) -> String {
+    let h0 = w.base_height as u64;
+    let height_of = |id: u64| chain.iter().position(|b| b.contains(&id)).map(|i| h0 + i as u64 + 1);
+    let on = |x: Option<u64>| x.map(|v| v.to_string()).unwrap_or("-".into());
+    let order: Vec<u64> = chain.iter().flatten().cloned().collect(); // confirmation order
+    let fh = height_of(F);
+    let ds = if fh.is_some() { None } else { [height_of(D), height_of(D2)].into_iter().flatten().min() };
+    let mc = height_of(M);
+    let close = [U, UC, UR].into_iter().find(|c| height_of(*c).is_some());
+    let uc = close.and_then(|c| height_of(c));
+    let our_sweeper = |c: u64| if c == U { S } else if c == UC { SC } else { SR };
+    let second_spender = |t: u64, idx: u32| match (t, idx) { (T1, 0) => Some(V1), (T2, 0) => Some(V2), (T12, 0) => Some(V12A), (T12, 1) => Some(V12B), _ => None };
+    let mut tracked: Vec<((u64, u32), bool)> = vec![((0, 1), false), ((0, 2), false)]; // (outpoint, spent on chain)
+    let spent_input = |id: u64, inp: (u64, u32)| -> bool {
+        order.iter().any(|t| *t != id && w.txs[t].input.iter().any(|i| (w.ids.get(&i.previous_output.txid).cloned().unwrap_or(999), i.previous_output.vout) == inp))
+    };
+    let (mut co, mut csh, mut osh) = ("-".to_string(), None, None);
+    if fh.is_some() { tracked.push(((F, 0), false)); }
+    if let Some(c) = close {
+        let (our, htlcs) = w.built[&c].clone();
+        let ch = uc.unwrap();
+        let our_spent_h = height_of(our_sweeper(c));
+        tracked.push(((c, our), false));
+        let mut flags = Vec::new();
+        let mut needed: Vec<Option<u64>> = vec![Some(ch), our_spent_h]; // heights that must all exist for "swept"
+        for hv in &htlcs {
+            tracked.push(((c, *hv), false));
+            let spender = w.htlc_spends.iter().find(|(t, v)| height_of(**t).is_some() && v.iter().any(|(vo, _)| vo == hv)).map(|(t, _)| *t);
+            flags.push(spender.is_some());
+            needed.push(spender.and_then(|t| height_of(t)));
+        }
+        // second-level entries in confirmation order (input order inside a transaction)
+        let mut second = Vec::new();
+        for t in order.iter() {
+            if let Some(v) = w.htlc_spends.get(t) {
+                if v.iter().all(|(vo, _)| htlcs.contains(vo)) && w.txs[t].input.iter().any(|i| w.ids.get(&i.previous_output.txid) == Some(&c)) {
+                    for (_, idx) in v {
+                        let sp = second_spender(*t, *idx).and_then(|x| height_of(x));
+                        tracked.push(((*t, *idx), false));
+                        second.push(format!("{}.{}+{}", t, idx, if sp.is_some() { 1 } else { 0 }));
+                        needed.push(sp);
+                    }
+                }
+            }
+        }
+        let j = |v: Vec<String>, sep: &str| if v.is_empty() { "-".to_string() } else { v.join(sep) };
+        co = format!(
+            "{}/{}+{}/{}/{}/{}",
+            c, our, if our_spent_h.is_some() { 1 } else { 0 },
+            j(htlcs.iter().map(|x| x.to_string()).collect(), ","),
+            j(flags.iter().map(|b| if *b { "1".to_string() } else { "0".to_string() }).collect(), ","),
+            j(second, ";")
+        );
+        if needed.iter().all(|x| x.is_some()) { csh = needed.iter().flatten().max().cloned(); }
+        osh = our_spent_h;
+    }
+    for e in tracked.iter_mut() { e.1 = spent_input(u64::MAX, e.0); }
+    let fmt = |v: Vec<(u64, u32)>| { let mut v = v; v.sort(); v.dedup(); format!("[{}]", v.iter().map(|(a, b)| format!("{}.{}", a, b)).collect::<Vec<_>>().join(",")) };
+    let watches = fmt(tracked.iter().filter(|e| !e.1).map(|e| e.0).collect());
+    let seen = fmt(tracked.iter().filter(|e| e.1).map(|e| e.0).collect());
+    format!(
+        "h={} fh={} fo={} ds={} mc={} uc={} co={} csh={} osh={} sf=0 w={} seen={}",
+        h0 + chain.len() as u64, on(fh), if fh.is_some() { format!("{}.0", F) } else { "-".into() }, on(ds), on(mc), on(uc), co, on(csh), on(osh), watches, seen
+    )
 }
